@@ -1293,8 +1293,9 @@ theorem nodup_dueIds (q : List (Int × CtxId)) (h : Int) (hn : q.Nodup) : (dueId
 
 theorem WF_foldl_expire : ∀ (l : List CtxId) (s : State), WF s → l.Nodup →
     (∀ id, id ∈ l → AMap.get? s.expH id = some s.height) →
-    WF (l.foldl expireCtx s) ∧ (l.foldl expireCtx s).height = s.height
-  | [], _, hs, _, _ => ⟨hs, rfl⟩
+    WF (l.foldl expireCtx s) ∧ (l.foldl expireCtx s).height = s.height ∧
+    (∀ e, e ∈ (l.foldl expireCtx s).expQ ↔ e ∈ s.expQ ∧ ∀ id, id ∈ l → e ≠ (s.height, id))
+  | [], _, hs, _, _ => ⟨hs, rfl, fun e => ⟨fun h => ⟨h, fun _ hm => by cases hm⟩, fun h => h.1⟩⟩
   | id :: rest, s, hs, hn, hd => by
     rw [List.nodup_cons] at hn
     obtain ⟨w1, w2, w3⟩ := WF_expireCtx hs id (hd id (List.mem_cons_self ..))
@@ -1308,7 +1309,18 @@ theorem WF_foldl_expire : ∀ (l : List CtxId) (s : State), WF s → l.Nodup →
       have : id' = id := (Prod.mk.inj e).2
       subst this; exact hn.1 hm)
     simp only [List.foldl]
-    exact ⟨this.1, this.2.trans w2⟩
+    refine ⟨this.1, this.2.1.trans w2, ?_⟩
+    intro e
+    rw [this.2.2 e, w3 e, w2]
+    constructor
+    · rintro ⟨⟨h1, h2⟩, h3⟩
+      refine ⟨h1, ?_⟩
+      intro id' hm
+      rcases List.mem_cons.mp hm with hm | hm
+      · subst hm; exact h2
+      · exact h3 id' hm
+    · rintro ⟨h1, h2⟩
+      exact ⟨⟨h1, h2 id (List.mem_cons_self ..)⟩, fun id' hm => h2 id' (List.mem_cons_of_mem _ hm)⟩
 
 theorem WF_foldl_new : ∀ (l : List CtxId) (s : State), WF s → l.Nodup →
     (∀ id, id ∈ l → AMap.get? s.newH id = some s.height) →
@@ -1324,12 +1336,22 @@ theorem WF_foldl_new : ∀ (l : List CtxId) (s : State), WF s → l.Nodup →
     simp only [List.foldl]
     exact ⟨this.1, this.2.trans w2⟩
 
+/-- the expired-batch phase keeps the invariant and removes every entry of the current height -/
+theorem WF_expiredPhase {s : State} (hs : WF s) :
+    WF (expiredPhase s) ∧ (expiredPhase s).height = s.height ∧ ∀ id, (s.height, id) ∉ (expiredPhase s).expQ := by
+  unfold expiredPhase
+  obtain ⟨w1, w2, w3⟩ := WF_foldl_expire _ s hs (nodup_dueIds _ _ hs.expND)
+    (fun id hm => hs.expM.1 _ _ ((mem_dueIds _ _ _).mp hm))
+  refine ⟨w1, w2, ?_⟩
+  intro id hm
+  rw [w3] at hm
+  exact hm.2 id ((mem_dueIds _ _ _).mpr hm.1) rfl
+
 theorem WF_endBlock {s : State} (hs : WF s) : WF (endBlock s) ∧ (endBlock s).height = s.height := by
   unfold endBlock
   have h1 : WF (expiredPhase s) ∧ (expiredPhase s).height = s.height := by
-    unfold expiredPhase
-    exact WF_foldl_expire _ s hs (nodup_dueIds _ _ hs.expND)
-      (fun id hm => hs.expM.1 _ _ ((mem_dueIds _ _ _).mp hm))
+    have := WF_expiredPhase hs
+    exact ⟨this.1, this.2.1⟩
   have h2 : WF (newPhase (expiredPhase s)) ∧ (newPhase (expiredPhase s)).height = (expiredPhase s).height := by
     unfold newPhase
     exact WF_foldl_new _ _ h1.1 (nodup_dueIds _ _ h1.1.newND)
